@@ -21,6 +21,13 @@ ASSUMPTIONS = [
 
 
 def mates_disagree(sc, ev):
+    try:
+        return _mates_disagree(sc, ev)
+    except model.Ambiguous:
+        return False
+
+
+def _mates_disagree(sc, ev):
     f = ev.fopts
     for a, b, ia, ib in ev.finals:
         mb = model.length_bounds(f["m"], True) if f["m"] is not None else (None, None)
